@@ -398,17 +398,18 @@ class Hist:
         I = self.I
         h = self.objs["sa1"]
         Str = I.global_lookup("string", "String")
-        v = I.call(Str, ["hi"], {"_buffer": self.ow.buf("B")})
+        TXT = "h\u00e9\u00e9\u00e9"  # non-ASCII: 4 characters, 7 bytes (a copy sized by characters loses the tail -- seeded C09-f)
+        v = I.call(Str, [TXT], {"_buffer": self.ow.buf("B")})
         before = self.snapshot()
         pos = I.call(I.getattr(h, "_get_offset"), [0], {})
         w0 = self.slot_word(h, pos)
         I.call(I.getattr(h, "__setitem__"), [0, v], {})
-        self.expect["sa1"]["[0]"] = "hi"
+        self.expect["sa1"]["[0]"] = TXT
         out = []
         w1 = self.slot_word(h, pos)
         if I._eq(w0, w1) is not True:
-            out.append(f"sa1[0] = String('hi'): the size recorded in the item's slot changes from {w0!r} to {w1!r} (the size of an instance cannot change after creation)")
-        return out + self.frame(before, [(pol(pos), Poly.const(32))], "sa1[0] = String('hi')")
+            out.append(f"sa1[0] = String({TXT!r}): the size recorded in the item's slot changes from {w0!r} to {w1!r} (the size of an instance cannot change after creation)")
+        return out + self.frame(before, [(pol(pos), Poly.const(32))], f"sa1[0] = String({TXT!r})")
 
     def op_str_copy(self):
         """String[3](sa2): a copy reads what its source reads, also when items of the source have room to spare (PF53)"""
